@@ -332,13 +332,30 @@ func c12r2(c *core.Ctx) {
 				if iff, ok := r.(*ssa.If); ok {
 					cmpIf = iff
 				}
+				// `case declared && value > bound:` of a tagless switch materialises the conjunction: the branch is on that value
+				if ph, ok := r.(*ssa.Phi); ok {
+					for _, rr := range *ph.Referrers() {
+						if iff, ok := rr.(*ssa.If); ok {
+							cmpIf = iff
+						}
+						if b2, ok := rr.(*ssa.BinOp); ok {
+							for _, r3 := range *b2.Referrers() {
+								if iff, ok := r3.(*ssa.If); ok {
+									if k, isK := core.ConstInt(b2.Y); isK && k == 1 && b2.Op == token.EQL {
+										cmpIf = iff
+									}
+								}
+							}
+						}
+					}
+				}
 			}
 			if cmpIf == nil {
 				c.Undecided("clamp-effect-"+spec.what+"@"+fname(f), spec.cmp.Pos(), "the comparison does not decide a branch")
 				continue
 			}
 			declared := core.TrueFact(func(v ssa.Value) bool { return v == spec.this })
-			okDecl := core.Dominated(cmpIf, declared)
+			okDecl := core.Dominated(spec.cmp, declared)
 			beyond, wrong := 0, 0
 			core.EnumPaths(f, 2, 20000, func(pa core.Path) {
 				ret := pa.Returns()
